@@ -96,6 +96,7 @@ class VCGen(SpecMixin, CallMixin, StmtMixin, ExprMixin, Engine):
         """generate the VCs of one function under contract; returns the list of new VCs"""
         n0 = len(self.vcs)
         c, fi = self.prepare(qual)
+        self.verified_quals.add(c.qual)
         self.use_axioms(c)
         st = self.init_state(c, fi)
         entry = st.copy()
@@ -105,6 +106,8 @@ class VCGen(SpecMixin, CallMixin, StmtMixin, ExprMixin, Engine):
         for r in c.requires:
             reqs.append(self.spb(r, st, -1))
         st = st.assume(*reqs)
+        if c.entry_assumes:
+            st = st.assume(*[self.spb(r, st, -1) for r in c.entry_assumes])
         entry.pc = st.pc
         st.old = entry
         # vacuity guard: the precondition must be satisfiable
